@@ -19,14 +19,14 @@ import (
 // by the event path reaching it; its canonical key is computed from the real objects after replay.
 
 type lnode struct {
-	parent int
-	ev     loop.Event
-	depth  int
-	key    string
-	spent  bool // no workload / fault budget left and no one-cycle fault pending
-	conv   bool
-	stable bool
-	out    []ledge
+	parent          int
+	ev              loop.Event
+	depth           int
+	key             string
+	spent           bool // no workload / fault budget left and no one-cycle fault pending
+	conv            bool
+	stable          bool
+	out             []ledge
 	enabledProgress []string
 }
 
@@ -216,11 +216,11 @@ type loopParams struct {
 // ---- worker side: a child process replays paths on fresh real objects ---------------------------
 
 type lwInit struct {
-	Cfg      *loop.Config `json:"cfg"`
-	Prop     string       `json:"prop"`
-	Handover bool         `json:"handover"`
-	MaxRounds int         `json:"max_rounds"`
-	Dir      string       `json:"dir"`
+	Cfg       *loop.Config `json:"cfg"`
+	Prop      string       `json:"prop"`
+	Handover  bool         `json:"handover"`
+	MaxRounds int          `json:"max_rounds"`
+	Dir       string       `json:"dir"`
 }
 
 type lwReq struct {
